@@ -183,7 +183,11 @@ class C09(Prop):
             from .decomp_common import gen_colnames
 
             c["colnames"] = gen_colnames(rng, nm) if 2 <= nm <= 3 else None
-            if c["fkind"] != "none" and rng.random() < 0.15:
+            if c["fkind"] == "numeric" and nm == 1 and rng.random() < 0.12:
+                # named like one of compute_bias's internal columns: the statistics must still be those of the groups (the feature
+                # column itself and the row order are not compared for these names: see DESIGN 10.8)
+                c["fname"] = rng.choice(["weights", "bias"])
+            elif c["fkind"] != "none" and rng.random() < 0.15:
                 c["fname"] = rng.choice(["model", "model", "model_"])
             elif c["fkind"] == "numeric" and rng.random() < 0.3:
                 # the float feature as a plain Python list, also one whose first element is a numpy integer scalar
@@ -229,6 +233,8 @@ class C09(Prop):
     def compare(self, case, io, mo):
         if "err" in io:
             return f"valid call rejected: {io['err']}: {io.get('msg')}"
+        if case.get("fname") in ("weights", "bias"):
+            return None  # row order / feature column are not defined for these names; the oracle matches rows to groups
         nm = len(case["preds"])
         per_model = len(io["rows"]) // nm
         if case["fkind"] == "numeric" and case["method"] == "quantile" and tc.quantile_rank_divergent(case["feature"], case["n_bins"]):
@@ -293,7 +299,8 @@ class C09(Prop):
         per_model = len(rows) // nm
         ws = [Fraction(1)] * n if case["w"] is None else [Fraction(v) for v in case["w"]]
         a = Fraction(case["level"])
-        for name in ("again", "perm"):
+        collide = case.get("fname") in ("weights", "bias")
+        for name in (() if collide else ("again", "perm")):
             other = io[name]
             if name == "perm" and case["fkind"] == "numeric" and case["method"] not in ("quantile", "uniform"):
                 # numpy's data-driven bin-width rules (doane, scott, fd, ...) sum the data in its own precision: for a float32
@@ -328,7 +335,7 @@ class C09(Prop):
                 groups = {}
                 for i, b in enumerate(io["bins"]):
                     groups.setdefault(b, []).append(i)
-                if (None in groups) != any(r["f"] is None for r in rs):
+                if not collide and (None in groups) != any(r["f"] is None for r in rs):
                     return "null feature values did not keep their own group"
                 if len(groups) != len(rs):
                     return f"{len(rs)} output rows for {len(groups)} groups"
